@@ -4,6 +4,7 @@ import PytmeModel.Proofs.Common
 import PytmeModel.Proofs.C01Field
 import PytmeModel.Proofs.C01Textbook
 import PytmeModel.Proofs.DftConv
+import PytmeModel.Proofs.DftInv
 import Mathlib.Algebra.BigOperators.Group.Finset.Basic
 import Mathlib.Tactic.Ring
 import Mathlib.Tactic.Linarith
@@ -580,6 +581,31 @@ theorem circ_dft_is_product_1d {R : Type} [CommRing R] (N : Nat) (ω : R) (hω :
     dftN N ω (fun u => circ [N] a b [(u : Int)]) k
       = dftN N ω (fun j => a [(j : Int)]) k * dftN N ω (fun r => b [(r : Int)]) k :=
   dft_circ1 N ω hω a b k
+
+/-- **Convolution theorem, n-D.**  On every box, for every choice of per-axis roots of unity (over any commutative
+ring), the separable DFT of the model's circular convolution `circ` is the pointwise product of the transforms. -/
+theorem circ_dft_is_product_nd {R : Type} [CommRing R] (Ns : List Nat) (ωs : List R) (hω : RootsOk Ns ωs)
+    (a b : List Int → R) (ks : List Nat) :
+    dftS Ns ωs (fun u => circ Ns a b u) ks = dftS Ns ωs a ks * dftS Ns ωs b ks :=
+  dftS_circ Ns ωs hω a b ks
+
+/-- **… and `circ` is the only such array.**  Over a field with a primitive root of unity for every axis length and
+invertible axis lengths (ℂ), an array on the box whose DFT is `â·b̂` at every frequency — the array an exact inverse
+FFT of the product returns — equals `circ a b` at every voxel.  Together with `circ_reindex_nd` this derives the
+windowed-sum reading of `irfftn(rfftn(f)·rfftn(g))` from the definition of the DFT alone; what stays trusted is that
+pyFFTW computes the DFT and its inverse (and rounding). -/
+theorem circ_unique_from_dft {K : Type} [Field K] (Ns : List Nat) (ωs : List K) (hp : RootsPrim Ns ωs)
+    (a b X : List Int → K)
+    (hX : ∀ ks, inShape Ns ks = true → dftS Ns ωs X ks = dftS Ns ωs a ks * dftS Ns ωs b ks)
+    (u : List Nat) (hu : inShape Ns u = true) : X (natsToInts u) = circ Ns a b (natsToInts u) :=
+  circ_unique_nd Ns ωs hp a b X hX u hu
+
+/-- non-vacuity: `-1` is a primitive square root of unity in ℚ, so the hypotheses hold on the 2×2 torus -/
+example : RootsPrim (K := ℚ) [2, 2] [-1, -1] := by
+  have h : PrimRoot (K := ℚ) 2 (-1) := ⟨by norm_num, fun l h0 h2 => by
+    have : l = 1 := by omega
+    subst this; norm_num⟩
+  exact ⟨h, by norm_num, h, by norm_num, trivial⟩
 
 /-! ## zero extension of arrays has box support; non-vacuity -/
 
